@@ -76,6 +76,11 @@ def run(ctx) -> None:
     # the (unfinished) .struct directive: every form must still end with a result or an error
     bases += [".struct point {\nbyte x\nword y\n}\n", ".struct header { dword checksum }\n.db 1\n", ".struct p { x }\n",
               ".struct p {\n byte a b\n}\nnop\n", ".struct q {\n}\n", ".struct {\nlong z\n}\n"]
+    # layouts without a stable size (a symbol fed back from the distance it influences); .map ranges beyond a byte
+    bases += ["x := 0\n*=0x008000\na:\nlda x\nb:\nx = 0x102 - (b - a)\n", "w := 0x1234\n*=0x008000\nlda w\nend:\nw = end & 0xff\n.dw w\n",
+              ".map identifier=1 bank_range=0x00, 0x6ff addr_range=0x8000, 0xffff mask=0x8000\n*=0x008000\nnop\n",
+              ".map identifier=1 bank_range=0x00, 0x3f addr_range=0x8000, 0xffff mask=0x8000 mirror_bank_range=0x80, 0x1bf\n*=0x008000\nnop\n",
+              ".map identifier=1 bank_range=0x3f, 0x00 addr_range=0xffff, 0x8000 mask=0x8000\n*=0x008000\nnop\n"]
     # macros that apply themselves (once, twice; unconditionally, under a condition that never turns false)
     bases += ["go := 1\n.macro spread() {\n.if go {\nspread()\nspread()\n}\n}\nspread()\n",
               ".macro once() {\n.db 1\nonce()\n}\nonce()\n", "k := 1\n.macro two(a) {\n.if k {\ntwo(a + 1)\ntwo(a)\n}\n}\n*=0x008000\ntwo(0)\n",
